@@ -178,7 +178,9 @@ def dict_seq(I: Interp, d: SV, kind) -> Seq:
     conc = None
     if z3.is_int_value(n) and n.as_long() <= UNROLL_LIMIT:
         conc = [item(z3.IntVal(j)) for j in range(n.as_long())]
-    return Seq(n, item, conc)
+    sq = Seq(n, item, conc)
+    sq.watch = r  # the dictionary must keep its size while it is being iterated (RuntimeError otherwise)
+    return sq
 
 
 def assigned_names(stmts) -> set:
@@ -226,6 +228,11 @@ def exec_for(I: Interp, node: ast.For, fr: Frame):
     it = I.ev(node.iter, fr)
     seq = to_seq(I, it, node)
     o, spec = loop_spec(I, fr, node)
+    def size_kept():
+        # Python raises "dictionary changed size during iteration" when the loop asks for the next item of a dict / set whose size
+        # is no longer what it was when the iteration started
+        if getattr(seq, "watch", None) is not None and not st.spec_depth:
+            st.oblige("safety", "dict_changed_size_during_iteration", z3.Select(st.arr("dsz"), seq.watch) == seq.n, node.lineno)
     if seq.concrete is not None and spec is None:
         broke = False
         for v in seq.concrete:
@@ -233,10 +240,12 @@ def exec_for(I: Interp, node: ast.For, fr: Frame):
             try:
                 I.exec_block(node.body, fr)
             except ContinueEx:
+                size_kept()
                 continue
             except BreakEx:
                 broke = True
                 break
+            size_kept()
         if not broke:
             I.exec_block(node.orelse, fr)
         return
@@ -252,10 +261,12 @@ def exec_for(I: Interp, node: ast.For, fr: Frame):
             try:
                 I.exec_block(node.body, fr)
             except ContinueEx:
+                size_kept()
                 continue
             except BreakEx:
                 broke = True
                 break
+            size_kept()
         if not broke:
             I.exec_block(node.orelse, fr)
         return
